@@ -801,8 +801,16 @@ def _case_aset_rand(case, ctx, pym):
         n = int(np.exp(rng.uniform(0, np.log(case["nmax"]))))
         n = max(1, n)
         nmaxseen = max(nmaxseen, n)
-        style = int(rng.integers(0, 7))
-        if style == 0:
+        style = int(rng.integers(0, 9))
+        if style >= 7:
+            # integer-valued data over a long range (percentages, counts): a band limit that coincides with an entry, lr = k/N, is
+            # on the band only if the comparison is made on the normalised values ((k/N)*N need not be k in floating point)
+            N = int(rng.choice([100, 100, 1000, 37, 49]))
+            n = max(n, 3)
+            x = rng.integers(0, N + 1, n).astype(float)
+            x[0], x[1] = 0.0, float(N)
+            x = x[rng.permutation(n)] + float(rng.choice([0.0, 0.0, 5.0]))
+        elif style == 0:
             x = rng.uniform(0, 1, n)
         elif style == 1:
             x = np.round(rng.uniform(0, 1, n), int(rng.integers(1, 3)))
